@@ -174,7 +174,8 @@ def _recursive_repr(fillvalue='...'):
 def _is_auto_name(class_name, instance_name):
     # ('%s%05d' of a counter shared by all classes: five digits, or more
     # without a leading zero once the counter has passed 99999)
-    return re.match('^'+class_name+'([0-9]{5}|[1-9][0-9]{5,})$', instance_name)
+    # (a name may be None)
+    return isinstance(instance_name, str) and re.match('^'+class_name+'([0-9]{5}|[1-9][0-9]{5,})$', instance_name)
 
 
 def _find_pname(pclass):
